@@ -1,9 +1,12 @@
 package vgirpc
 
 import (
+	"errors"
 	"io"
 	"net/http"
 	"strings"
+
+	"github.com/klauspost/compress/zstd"
 )
 
 //verif:ints lia
@@ -279,4 +282,49 @@ func verifH_C17_advert() {
 	rw := &verifC17RW{hdr: http.Header{}}
 	h.addCapabilityHeaders(rw, false)
 	verifAssert(rw.hdr.Get("VGI-Supported-Encodings") == strings.Join(p, ", "), "the capability header carries the producible set")
+}
+
+// ---- SetCompressionLevel: a level the encoder refuses must not be kept ----
+
+var verifC17ProbeLevel int
+
+func verifC17WithLevel(l zstd.EncoderLevel) zstd.EOption { verifC17ProbeLevel = int(l); return nil }
+
+// the encoder library's contract: levels SpeedFastest(1)..SpeedBestCompression(4) are accepted
+func verifC17ZstdAccepts(l int) bool { return l >= 1 && l <= 4 }
+func verifC17ZNewWriter(w io.Writer, opts ...zstd.EOption) (*zstd.Encoder, error) {
+	if !verifC17ZstdAccepts(verifC17ProbeLevel) {
+		return nil, errors.New("unknown encoder level")
+	}
+	return &zstd.Encoder{}, nil
+}
+func verifC17ZClose(e *zstd.Encoder) error { return nil }
+
+// Whatever levels an operator tries, the server ends up advertising only what it
+// can produce at the level it kept.
+//
+//verif:stub github.com/klauspost/compress/zstd.NewWriter = verifC17ZNewWriter
+//verif:stub github.com/klauspost/compress/zstd.WithEncoderLevel = verifC17WithLevel
+//verif:stub (*github.com/klauspost/compress/zstd.Encoder).Close = verifC17ZClose
+//verif:bound a server at the default level, then two SetCompressionLevel calls with ANY int each; the zstd library is its contract (NewWriter accepts exactly the encoder levels 1..4 and fails otherwise); request-time encoders are outside this harness (verifH_C17_finish)
+func verifH_C17_level_setter() {
+	h := &HttpServer{server: &Server{}}
+	h.applyCompressionLevel(DefaultCompressionLevel)
+	verifAssert(verifC17ZstdAccepts(h.zstdEncoderLevel), "the default level is one the encoder accepts")
+	for i := 0; i < 2; i++ {
+		lvl := verifNondetInt("level")
+		before, beforeAdv := h.zstdEncoderLevel, h.supportedEncodingsValue
+		err := h.SetCompressionLevel(lvl)
+		verifReach("set")
+		if err != nil {
+			verifReach("refused")
+			verifAssert(h.zstdEncoderLevel == before && h.supportedEncodingsValue == beforeAdv, "a refused level leaves the working configuration untouched")
+		} else if lvl > 0 {
+			verifAssert(h.zstdEncoderLevel == lvl, "an accepted level is kept")
+		} else {
+			verifAssert(h.zstdEncoderLevel == 0, "a non-positive level turns compression off")
+		}
+		verifAssert(h.zstdEncoderLevel == 0 || verifC17ZstdAccepts(h.zstdEncoderLevel), "the level kept is off or one the encoder can be built with: every advertised codec can really be produced")
+		verifAssert(h.supportedEncodingsValue == strings.Join(h.producibleResponseEncodings(), ", "), "the advertisement equals the producible set")
+	}
 }
